@@ -320,9 +320,6 @@ class MarshalSerializer(SerializerBase):
         return marshal.dumps((obj, method, vargs, kwargs))
 
     def dumps(self, data):
-        if type(data) is list:
-            # like the arguments of a call: convert the items (a batch result list can hold exception wrappers)
-            data = [self.convert_obj_into_marshallable(value) for value in data]
         return marshal.dumps(self.convert_obj_into_marshallable(data))
 
     def loadsCall(self, data):
@@ -336,9 +333,13 @@ class MarshalSerializer(SerializerBase):
         data = self._convertToBytes(data)
         return self.recreate_classes(marshal.loads(data))
 
-    def convert_obj_into_marshallable(self, obj):
+    def convert_obj_into_marshallable(self, obj, toplevel=True):
         marshalable_types = (str, int, float, type(None), bool, complex, bytes, bytearray,
                              tuple, set, frozenset, list, dict)
+        if toplevel and type(obj) is list:
+            # the items of a list may need converting too (the result list of a batch holds an exception wrapper for
+            # a failed member); look one level deep, the same for call arguments and for results
+            return [self.convert_obj_into_marshallable(item, False) for item in obj]
         if isinstance(obj, array.array):
             if obj.typecode == 'c':
                 return obj.tostring()
